@@ -40,19 +40,26 @@ SubtractedNum(m, W, V) == BackupNum(m, V)[1] - W[1] * Den(m)
 (* perm[j] = state at shuffled position j (1..ns); L the batch layout.        *)
 IsPermutation(perm, n) ==
   /\ Len(perm) = n
-  /\ \A s \in 1..n : \E j \in 1..n : perm[j] = s
+  /\ \A j \in 1..n : perm[j] \in 1..n
+  /\ Cardinality({perm[j] : j \in 1..n}) = n
+
+(* pinv is the inverse of perm (position of every state).  The trace supplies it and the specification VERIFIES it   *)
+(* in one pass - looking positions up by searching perm would make a sweep over n states cost n^2 (n^3) steps.     *)
+IsInverse(perm, pinv, n) ==
+  /\ Len(pinv) = n
+  /\ \A j \in 1..n : pinv[perm[j]] = j
 
 PosOf(perm, s) == CHOOSE j \in 1..Len(perm) : perm[j] = s
 
 (* t has already been updated when s is processed: same device, earlier batch *)
-UpdatedBefore(L, perm, t, s) ==
-  LET pt == PosOf(perm, t)
-      ps == PosOf(perm, s)
-  IN DevOf(L, pt) = DevOf(L, ps) /\ BatchOf(L, pt) < BatchOf(L, ps)
+UpdatedBeforeAt(L, pt, ps) == DevOf(L, pt) = DevOf(L, ps) /\ BatchOf(L, pt) < BatchOf(L, ps)
+UpdatedBefore(L, perm, t, s) == UpdatedBeforeAt(L, PosOf(perm, t), PosOf(perm, s))
 
 (* the vector state s reads: new values W of states updated before it, old values V otherwise *)
 CarryFor(m, L, perm, W, V, s) ==
   [t \in States(m) |-> IF UpdatedBefore(L, perm, t, s) THEN W[t] ELSE V[t]]
+CarryForInv(m, L, pinv, W, V, s) ==
+  [t \in States(m) |-> IF UpdatedBeforeAt(L, pinv[t], pinv[s]) THEN W[t] ELSE V[t]]
 
 (* W is the block Gauss-Seidel sweep of V in the order given by (L, perm); because W is the   *)
 (* observed (exact) result, earlier batches' new values are read from W itself (induction     *)
@@ -60,6 +67,10 @@ CarryFor(m, L, perm, W, V, s) ==
 IsGSSweep(m, L, perm, W, V) ==
   \A s \in States(m) :
      W[s] * Den(m) = MaxTo(QRow(m, CarryFor(m, L, perm, W, V, s), s), m.na)
+(* the same with positions read from a verified inverse *)
+IsGSSweepInv(m, L, pinv, W, V) ==
+  \A s \in States(m) :
+     W[s] * Den(m) = MaxTo(QRow(m, CarryForInv(m, L, pinv, W, V, s), s), m.na)
 
 (* ---- periodic value iteration: the documented measure ---------------------*)
 (* iterates: sequence with iterates[j+1] = V_j (j = 0..n).  period p.         *)
